@@ -498,3 +498,118 @@ fn all_done_before(ctx: &Ctx, flat: &Flat, issued_before: u32) -> Result<(), Str
     }
     Ok(())
 }
+
+
+// ------------------------------------------------------------------------------------------------
+// C15: the 2^k-th dispatch of one asynchronous dispatcher
+
+pub struct C15Many;
+
+#[derive(Clone, Debug, Serialize, Deserialize)]
+pub struct C15ManyCase {
+    /// the checked dispatches are number 2^k - 1, 2^k and 2^k + 1
+    pub k: u8,
+    pub threads: u8,
+}
+
+impl Prop for C15Many {
+    type Case = C15ManyCase;
+    fn name(&self) -> &'static str {
+        "c15-many-dispatches"
+    }
+    fn property(&self) -> &'static str {
+        "C15"
+    }
+    fn rule(&self) -> &'static str {
+        "one asynchronous dispatcher (two ordinary systems and one thread-local system) on a pool of 1, 2 or 4 threads used for 65537 dispatch / wait rounds; in the rounds 2^j - 1, 2^j and 2^j + 1 (j = 1..16) a system is held inside run: running() must be true while it is held, wait() must return only after it was let go, and at the end every counter equals the number of rounds; non-trivial = every case; distinct = case hash"
+    }
+    fn stream_len(&self) -> usize {
+        4
+    }
+    fn max_shrink_iters(&self) -> u32 {
+        8
+    }
+    fn gen(&self, src: &mut Src) -> C15ManyCase {
+        C15ManyCase {
+            k: 16,
+            threads: [1u8, 2, 4][src.pick(3)],
+        }
+    }
+    fn check(&self, case: &C15ManyCase, lane: usize, st: &mut Stats) -> Result<(), Fail> {
+        use crate::plan::{Kind, Op};
+        let k = case.k.clamp(2, 16) as u32;
+        let last = (1u32 << k) + 1;
+        // checked rounds: 2^j - 1, 2^j, 2^j + 1 for every j <= k
+        let near_power = |r: u32| (r.wrapping_sub(1)..=r + 1).any(|x| x >= 2 && x.is_power_of_two());
+        let sys = |name: &str| Op::Sys {
+            name: name.into(),
+            deps: vec![],
+            reads: vec![],
+            writes: vec![],
+            rt: 3,
+            kind: Kind::Dyn,
+            extra_deps: vec![],
+        };
+        let plan = vec![sys("a"), sys("b"), Op::Tl { reads: vec![], writes: vec![] }];
+        let tp = pool(lane, case.threads.clamp(1, 8) as usize);
+        let flat = Arc::new(compile(&plan));
+        let ctx = Ctx::new(flat.clone());
+        let builder = build_builder(&plan, &flat, 0, &ctx, Some(tp), &BuildOpts::default())
+            .map_err(|e| Fail::new(format!("builder panicked: {}", e.msg)))?;
+        let mut ad = catch_unwind(AssertUnwindSafe(|| builder.build_async(fresh_world())))
+            .map_err(|p| Fail::new(format!("build_async panicked: {}", panic_msg(&p))))?;
+        ctx.log_on.store(false, SeqCst);
+        ctx.set_phase(PHASE_RUN);
+        let held = 0usize; // system "a"
+        let result: Result<(), Fail> = (|| {
+            for round in 1..=last {
+                let checked = near_power(round);
+                if checked {
+                    ctx.hold[held].store(round, SeqCst);
+                }
+                ad.dispatch();
+                if checked {
+                    let t0 = Instant::now();
+                    while !ctx.holding[held].load(SeqCst) && t0.elapsed() < Duration::from_secs(5) {
+                        std::thread::yield_now();
+                    }
+                    if !ctx.holding[held].load(SeqCst) {
+                        ctx.hold[held].store(0, SeqCst);
+                        return Err(Fail::new(format!("dispatch number {}: the system to be held never started", round)));
+                    }
+                    let r = ad.running();
+                    ctx.hold[held].store(0, SeqCst);
+                    if !r {
+                        return Err(Fail::new(format!(
+                            "dispatch number {} of one asynchronous dispatcher: running() returned false while a system is inside run",
+                            round
+                        )));
+                    }
+                }
+                ad.wait();
+                if checked {
+                    let runs = ctx.runs();
+                    if runs.iter().any(|r| *r != round) {
+                        return Err(Fail::new(format!(
+                            "after wait() number {} the run counters are {:?}",
+                            round, runs
+                        )));
+                    }
+                }
+            }
+            Ok(())
+        })();
+        for h in ctx.hold.iter() {
+            h.store(0, SeqCst);
+        }
+        let _ = catch_unwind(AssertUnwindSafe(|| ad.wait_without_tl()));
+        ctx.set_phase(PHASE_BUILD);
+        ctx.log_on.store(true, SeqCst);
+        result?;
+        st.class(&format!("rounds_2^{}", k));
+        if k >= 8 {
+            st.nontrivial(case, || json!({"rounds": last}));
+        }
+        Ok(())
+    }
+}
